@@ -21,7 +21,7 @@ ASSUMPTIONS = [
 ]
 REQUIRED = {t: ['fn:evaluate', 'fn:evaluate_exact', 'fn:evaluate_vector', 'zone:closed-element', 'zone:end-point', 'zone:near-layer', 'zone:far',
                 'where:other-piece', 'where:across-seam', 'time:at-end', 'time:inside', 'time:after-end', 'source:estimator-nodes',
-                'source:hostile', 'elem:tiny', 'clause:integral', 'curve:UnitSquare', 'curve:PiSquare', 'curve:LShape', 'curve:Circle', 'curve:UnitInterval']
+                'source:hostile', 'elem:tiny', 'history:other-curves-first', 'clause:integral', 'curve:UnitSquare', 'curve:PiSquare', 'curve:LShape', 'curve:Circle', 'curve:UnitInterval']
             for t in ('quick', 'thorough')}
 TIMEOUT = {'quick': 1200, 'thorough': 7200}
 CURVES = ['UnitSquare', 'PiSquare', 'LShape', 'Circle', 'UnitInterval']
@@ -66,6 +66,23 @@ def run_shard(spec, acc):
     L, T = geo.length, tg[-1]
     wit0 = {'curve': curve, 'mesh': ls.spec, 'history': ls.history}
     acc.seen('curve:' + curve)
+    # operators on the OTHER curves are built and used first, in the same process (leaves of different curves share parameter
+    # intervals such as [0,1]): nothing they leave behind may influence the operator under test
+    from src.mesh import MeshParametrized
+    from src import parametrization as P
+    for other in CURVES:
+        if other == curve:
+            continue
+        om = MeshParametrized(getattr(P, other)())
+        if other == 'LShape':
+            for oe in list(om.leaf_elements):
+                if oe.h_x > 1:
+                    om.refine_space(oe)
+        osl = SingleLayerOperator(om)
+        oel = list(om.leaf_elements)
+        osl._init_elems(oel)
+        osl.evaluate(oel[0], 1.0, oel[-1].space_interval[0], np.asarray(om.gamma_space.eval(oel[-1].space_interval[0])).reshape(2, 1))
+    acc.seen('history:other-curves-first')
     SL = SingleLayerOperator(mesh)
     SL._init_elems(elems)
     cases = []   # (source, fn, elem, t, xh)
